@@ -1356,7 +1356,7 @@ pub async fn scenario(case: Case) -> Obs {
     if let Some((start, _)) = ALLOC.get() {
         start();
     }
-    let t0 = std::time::Instant::now();
+    let t0 = vlib::runner::thread_cpu_ms();
     match &case.bad {
         Bad::Item(i) => {
             for step in item_steps(*i, &env) {
@@ -1383,7 +1383,7 @@ pub async fn scenario(case: Case) -> Obs {
         }
     }
     cx.settle(3).await;
-    obs.bad_ms = t0.elapsed().as_secs_f64() * 1000.0;
+    obs.bad_ms = vlib::runner::thread_cpu_ms() - t0;
     if let Some((_, stop)) = ALLOC.get() {
         obs.max_alloc = stop().0;
     }
